@@ -139,6 +139,43 @@ def line_hash(text):
 
 def run_unit(unit_path, repo="/repo", tier="quick", seed=0, keep=False, extra_args=None, rlimit=None,
              only_fn=None):
+    """Runs the unit; if rustc cannot find a *constant* that the (changed) code refers to, the constant's item is
+    extracted from the same source files and the unit is run again (rule AUTO-CONST: the item text is the real one)."""
+    extra = []
+    for _attempt in range(3):
+        r = _run_unit_once(unit_path, repo, tier, seed, keep, extra_args, rlimit, only_fn, extra)
+        if r["status"] != "undecided":
+            break
+        names = set()
+        for u in r["undecided"]:
+            for m in re.finditer(r"cannot find value `([A-Z][A-Z0-9_]*)` in this scope", u):
+                names.add(m.group(1))
+        if not names:
+            break
+        files = sorted(set(f.get("file") for f in r.get("functions", []) if isinstance(f, dict) and f.get("file")))
+        added = []
+        for nm in sorted(names):
+            for f in files:
+                try:
+                    txt = open(os.path.join(repo, f)).read()
+                except OSError:
+                    continue
+                m = re.search(r"^(?:pub(?:\([a-z]+\))? )?(const|static) " + nm + r"\b", txt, re.M)
+                if m:
+                    spec = f"{f} :: {m.group(1)} {nm}"
+                    if spec not in extra:
+                        extra.append(spec)
+                        added.append(spec)
+                    break
+        if not added:
+            break
+    if extra:
+        r.setdefault("fired", []).extend(dict(rule="AUTO-CONST", file=x.split(" :: ")[0], line=0, note=x) for x in extra)
+    return r
+
+
+def _run_unit_once(unit_path, repo="/repo", tier="quick", seed=0, keep=False, extra_args=None, rlimit=None,
+                   only_fn=None, extra_items=None):
     t0 = time.time()
     res = dict(unit=os.path.basename(unit_path)[:-3], status="ok", obligations=0, discharged=0, failures=[],
                undecided=[], functions=[], assumptions=[], fired=[], times={}, verus_cmd="")
@@ -146,7 +183,7 @@ def run_unit(unit_path, repo="/repo", tier="quick", seed=0, keep=False, extra_ar
     work = tempfile.mkdtemp(prefix=res["unit"] + "-", dir=BUILD)
     try:
         try:
-            gen = extract.assemble(repo, unit_path)
+            gen = extract.assemble(repo, unit_path, extra_items=extra_items)
         except extract.LostAnchor as e:
             res["status"] = "undecided"
             res["undecided"].append(f"lost anchor: {e}")
